@@ -539,34 +539,23 @@ zif_copy(zif_t z)
 static inline int
 __find_trno(const struct zif_s z[static 1U], stamp_t t, int min, int max)
 {
-/* find the last transition before T, T is expected to be UTC
- * if T is before any known transition return -1 */
-	if (UNLIKELY(max == 0)) {
-		/* special case */
-		return -1;
-	} else if (UNLIKELY(t < zif_trans(z, min))) {
-		return -1;
-	} else if (UNLIKELY(t > zif_trans(z, max))) {
-		return max - 1;
+/* find the last transition at or before T amongst the transitions
+ * MIN <= i < MAX, T is expected to be UTC
+ * if T is before all of them return MIN - 1, i.e. -1 for the whole table */
+	if (UNLIKELY(max <= min || t < z->trs[min])) {
+		return min - 1;
 	}
+	/* invariant: trs[min] <= t and (max is the end or t < trs[max]) */
+	while (max - min > 1) {
+		const int this = min + (max - min) / 2;
 
-	do {
-		stamp_t tl, tu;
-		int this = (min + max) / 2;
-
-		tl = zif_trans(z, this);
-		tu = zif_trans(z, this + 1);
-
-		if (t >= tl && t < tu) {
-			/* found him */
-			return this;
-		} else if (t >= tu) {
+		if (t >= z->trs[this]) {
 			min = this;
-		} else if (t < tl) {
+		} else {
 			max = this;
 		}
-	} while (true);
-	/* not reached */
+	}
+	return min;
 }
 
 DEFUN inline int
@@ -587,21 +576,17 @@ __find_zrng(const struct zif_s z[static 1U], stamp_t t, int min, int max)
 	int trno;
 
 	trno = __find_trno(z, t, min, max);
-	res.prev = zif_trans(z, trno);
-	if (UNLIKELY(trno <= 0 && t < res.prev)) {
+	if (UNLIKELY(trno < 0)) {
+		/* before the first transition or no transitions at all,
+		 * assume the first offset has always been there */
 		res.trno = 0U;
 		res.prev = STAMP_MIN;
-		/* assume the first offset has always been there */
-		res.next = res.prev;
-	} else if (UNLIKELY(trno < 0)) {
-		/* special case where no transitions are recorded */
-		res.trno = 0U;
-		res.prev = STAMP_MIN;
-		res.next = STAMP_MAX;
+		res.next = z->ntr ? z->trs[0U] : STAMP_MAX;
 	} else {
-		res.trno = (uint8_t)trno;
+		res.trno = trno;
+		res.prev = z->trs[trno];
 		if (LIKELY(trno + 1U < z->ntr)) {
-			res.next = zif_trans(z, trno + 1U);
+			res.next = z->trs[trno + 1U];
 		} else {
 			res.next = STAMP_MAX;
 		}
@@ -665,17 +650,11 @@ __offs(struct zif_s z[static 1U], stamp_t t)
 	if (LIKELY(t >= z->cache.prev && t < z->cache.next)) {
 		/* use the cached offset */
 		return z->cache.offs;
-	} else if (t >= z->cache.next) {
-		min = z->cache.trno + 1;
-		max = z->ntr;
-	} else if (t < z->cache.prev) {
-		max = z->cache.trno;
-		min = 0;
-	} else {
-		/* we shouldn't end up here at all */
-		min = 0;
-		max = 0;
 	}
+	/* cache miss (the pristine cache is the empty range),
+	 * bisect the whole table */
+	min = 0;
+	max = z->ntr;
 	return (z->cache = __find_zrng(z, t, min, max)).offs;
 }
 
